@@ -148,7 +148,18 @@ pub fn domain<T: TF>(thorough: bool) -> Vec<(Vec<u8>, [u64; 2], Vec<u8>, &'stati
     for k in &ks {
         for b in &b01 {
             v.push((k.clone(), t01[0], b.clone(), "keysweep"));
+            // the all-zero tweak as well: with a zero key/tweak/block most internal words are zero, the
+            // corner where a shortcut keyed on "this word is zero" misfires
+            v.push((k.clone(), [0, 0], b.clone(), "keysweep-zero-tweak"));
         }
+    }
+    let zk = vec![0u8; n];
+    for b in &bs {
+        v.push((zk.clone(), [0, 0], b.clone(), "zero-key-zero-tweak-blocksweep"));
+        v.push((zk.clone(), t01[0], b.clone(), "zero-key-blocksweep"));
+    }
+    for t in &ts {
+        v.push((zk.clone(), *t, vec![0u8; n], "zero-key-zero-block-tweaksweep"));
     }
     for k in &k01 {
         for t in &ts {
@@ -274,7 +285,7 @@ fn run_slices<T: TF>(rep: &mut Report, check: &str) {
 pub fn run(check: &str, tier: &str, config: &str) -> Report {
     let mut rep = Report::new(check, tier, config);
     let th = tier == "thorough";
-    rep.rule = "per block size: union of complete products K x {t0} x {b0,b1}, {k0,k1} x T x {b0,b1}, {k0,k1} x {t0,t1} x B with K = {0, 1^n, every one-hot key bit, each word all-ones, a key whose words XOR to C240 (parity word 0)}, T = {(0,0), (max,max), every one-hot of the 128 tweak bits, (x,x) (third tweak word 0), ...}, B = {0, 1^n, every one-hot block bit, each word all-ones}; thorough adds one-cold keys/blocks/tweaks, 64 patterned values and sparse cross products; oracle vref::threefish (round loop, subkeys on the fly, spec permutation); C10 checks dec(enc(x)) = x, enc(dec(x)) = x and dec against the model; both checks also drive the slice entry points encrypt_blocks / decrypt_blocks on 0..=5 blocks; distinct_nontrivial = distinct expected ciphertexts".into();
+    rep.rule = "per block size: union of complete products K x {t0, (0,0)} x {b0,b1}, {0} x {(0,0), t0} x B, {0} x T x {0}, {k0,k1} x T x {b0,b1}, {k0,k1} x {t0,t1} x B with K = {0, 1^n, every one-hot key bit, each word all-ones, a key whose words XOR to C240 (parity word 0)}, T = {(0,0), (max,max), every one-hot of the 128 tweak bits, (x,x) (third tweak word 0), ...}, B = {0, 1^n, every one-hot block bit, each word all-ones}; thorough adds one-cold keys/blocks/tweaks, 64 patterned values and sparse cross products; oracle vref::threefish (round loop, subkeys on the fly, spec permutation); C10 checks dec(enc(x)) = x, enc(dec(x)) = x and dec against the model; both checks also drive the slice entry points encrypt_blocks / decrypt_blocks on 0..=5 blocks; distinct_nontrivial = distinct expected ciphertexts".into();
     run_one::<T256>(&mut rep, check, th);
     run_one::<T512>(&mut rep, check, th);
     run_one::<T1024>(&mut rep, check, th);
